@@ -427,6 +427,141 @@ func TestCheck(t *testing.T) {
 		bDistinct.Add(fmt.Sprintf("%s/%s/%s=%s", bc.Holder, bc.Waiter, bc.Event, obs))
 	}
 
+	// ---------- Part B2: events landing inside a retry of the blocking call ----------
+	// The waiter's k-th attempt (k = 2, 3: after a tick was chosen over the context) is held at its entry (the
+	// instrumented point before the attempt takes the mutex's internal lock) while the holders release and / or the
+	// context is cancelled; then it proceeds. Whatever the call returns must agree with the guard: an error means
+	// nothing was taken, success means the lock is held.
+	type b2case struct {
+		Holder string // X | S | S2
+		Waiter string // Lock | RLock
+		Event  string // release+cancel | cancel | release
+		K      int
+	}
+	var b2cases []b2case
+	for _, h := range []string{"X", "S", "S2"} {
+		for _, w := range []string{"Lock", "RLock"} {
+			if w == "RLock" && h != "X" {
+				continue // a shared lock is granted next to shared holders at the first attempt: there is no retry
+			}
+			for _, e := range []string{"release+cancel", "cancel", "release"} {
+				for _, k := range []int{2, 3} {
+					b2cases = append(b2cases, b2case{h, w, e, k})
+				}
+			}
+		}
+	}
+	for _, bc := range b2cases {
+		bc := bc
+		var obs string
+		synctest.Test(t, func(t *testing.T) {
+			var rw litefs.RWMutex
+			h1, h2, wg := rw.Guard(), rw.Guard(), rw.Guard()
+			switch bc.Holder {
+			case "X":
+				h1.TryLock()
+			case "S":
+				h1.TryRLock()
+			case "S2":
+				h1.TryRLock()
+				h2.TryRLock()
+			}
+			ctx, cancel := context.WithCancelCause(context.Background())
+			defer cancel(nil)
+			cause := errors.New("test-cancel")
+			attempts := 0
+			fired := false
+			site := "rw.trylock"
+			if bc.Waiter == "RLock" {
+				site = "rw.tryrlock"
+			}
+			litefs.VerifSetHook(func(s string, obj any, a int64, b bool) {
+				if s != site || obj != any(&wg) {
+					return
+				}
+				attempts++
+				if attempts == bc.K && !fired {
+					fired = true
+					if strings.Contains(bc.Event, "release") {
+						h1.Unlock()
+						h2.Unlock()
+					}
+					if strings.Contains(bc.Event, "cancel") {
+						cancel(cause)
+					}
+				}
+			})
+			defer litefs.VerifSetHook(nil)
+			type ret struct{ err error }
+			done := make(chan ret, 1)
+			go func() {
+				var err error
+				if bc.Waiter == "Lock" {
+					err = wg.Lock(ctx)
+				} else {
+					err = wg.RLock(ctx)
+				}
+				done <- ret{err}
+			}()
+			time.Sleep(50 * q)
+			synctest.Wait()
+			var r *ret
+			select {
+			case v := <-done:
+				r = &v
+			default:
+			}
+			fail := func(key, what string) {
+				run.Violation("B2/"+key, fmt.Sprintf("%s\ncase=%+v result=%+v guard=%v mutex=%v", what, bc, r, wg.State(), rw.State()), map[string]any{"part": "B2", "case": bc})
+			}
+			litefs.VerifSetHook(nil)
+			switch {
+			case !fired:
+				run.HarnessError("B2 %+v: the waiter never reached attempt %d", bc, bc.K)
+			case r == nil:
+				obs = "blocked"
+				if bc.Event != "release" || true {
+					fail("no-return/"+bc.Waiter, "the blocking call did not return although the lock was released or its context cancelled")
+				}
+			case r.err != nil:
+				obs = "error"
+				if wg.State() != litefs.RWMutexStateUnlocked {
+					fail("failed-attempt-holds-lock/"+bc.Waiter, "the blocking call returned an error but its guard holds the lock: a failed attempt must change nothing")
+				}
+				if rw.State() != litefs.RWMutexStateUnlocked && strings.Contains(bc.Event, "release") {
+					fail("failed-attempt-left-mutex-locked/"+bc.Waiter, "every holder released and the waiter's call failed, but the mutex is not unlocked")
+				}
+				if !strings.Contains(bc.Event, "cancel") {
+					fail("error-without-cancel/"+bc.Waiter, "the blocking call failed although its context was never cancelled")
+				} else if !errors.Is(r.err, cause) {
+					fail("ctx-cause/"+bc.Waiter, "the blocking call did not return the context's cause")
+				}
+			default:
+				obs = "acquired"
+				want := litefs.RWMutexStateExclusive
+				if bc.Waiter == "RLock" {
+					want = litefs.RWMutexStateShared
+				}
+				if wg.State() != want {
+					fail("state-after-acquire/"+bc.Waiter, "the blocking call returned success but its guard does not hold the lock")
+				}
+				if !strings.Contains(bc.Event, "release") && !(bc.Waiter == "RLock" && bc.Holder != "X") {
+					fail("acquired-unavailable/"+bc.Waiter, "the blocking call returned success although no holder released")
+				}
+			}
+			cancel(nil)
+			h1.Unlock()
+			h2.Unlock()
+			time.Sleep(2 * q)
+			synctest.Wait()
+			if r == nil {
+				<-done
+			}
+		})
+		bEvals++
+		bDistinct.Add(fmt.Sprintf("B2 %s/%s/%s@%d=%s", bc.Holder, bc.Waiter, bc.Event, bc.K, obs))
+	}
+
 	samples = append(samples, map[string]any{"part": "B", "blocking_cases": bEvals, "distinct_outcomes": bDistinct.Top(60)})
 	cov := map[string]any{
 		"states":                        states,
